@@ -15,6 +15,7 @@ import (
 type walkCtx struct {
 	steps int
 	cap   int
+	elems *simdjson.Elements // reused destination of Object.Parse (documented: "An optional destination can be given")
 }
 
 var errStepCap = errors.New("walker exceeded its step cap (does not terminate)")
@@ -200,29 +201,46 @@ func (w *walkCtx) aiterValue(it *simdjson.Iter, t simdjson.Type) (*MV, error) {
 		if err != nil {
 			return nil, err
 		}
-		elems, err := obj.Parse(nil)
+		elems, err := obj.Parse(w.elems)
 		if err != nil {
 			return nil, err
 		}
-		m := &MV{K: KObject, Keys: [][]byte{}, Vals: []*MV{}}
-		for i := range elems.Elements {
-			e := &elems.Elements[i]
-			v, err := w.aiterValue(&e.Iter, e.Type)
-			if err != nil {
-				return nil, err
-			}
-			m.Keys = append(m.Keys, []byte(e.Name))
-			m.Vals = append(m.Vals, v)
+		// the destination is reused for the next object: finish with this one first (children are walked afterwards)
+		type member struct {
+			name string
+			t    simdjson.Type
+			it   simdjson.Iter
 		}
-		// Elements.Lookup must return the last member with that name (Index is overwritten in order).
+		members := make([]member, len(elems.Elements))
+		for i, e := range elems.Elements {
+			members[i] = member{e.Name, e.Type, e.Iter}
+		}
+		// Elements.Lookup must return the last member with that name, and know no other names
 		last := map[string]int{}
 		for i := range elems.Elements {
 			last[elems.Elements[i].Name] = i
+		}
+		if len(elems.Index) != len(last) {
+			return nil, fmt.Errorf("Object.Parse: Index holds %d names but the object has %d distinct names (stale entries from the reused destination?)", len(elems.Index), len(last))
 		}
 		for k, i := range last {
 			if e := elems.Lookup(k); e != &elems.Elements[i] {
 				return nil, fmt.Errorf("Elements.Lookup(%q) did not return member #%d", k, i)
 			}
+		}
+		if e := elems.Lookup("\x00absent-name"); e != nil {
+			return nil, fmt.Errorf("Elements.Lookup of an absent name returned %q", e.Name)
+		}
+		w.elems = elems
+		m := &MV{K: KObject, Keys: [][]byte{}, Vals: []*MV{}}
+		for i := range members {
+			e := &members[i]
+			v, err := w.aiterValue(&e.it, e.t)
+			if err != nil {
+				return nil, err
+			}
+			m.Keys = append(m.Keys, []byte(e.name))
+			m.Vals = append(m.Vals, v)
 		}
 		return m, nil
 	}
